@@ -447,6 +447,7 @@ pub fn child_overflow(args: &[String]) {
 }
 
 fn overflow_grid(g: &mut Grid, tier: &str) {
+    vrt::crash::idle(); // waits on child processes, not on a cell
     use std::process::Command;
     let exe = std::env::current_exe().unwrap();
     let sizes: &[(usize, usize)] = if tier == "thorough" { &[(1, 1), (2, 2), (3, 1), (8, 8), (24, 8), (64, 64)] } else { &[(1, 1), (3, 1), (8, 8), (64, 64)] };
